@@ -14,6 +14,7 @@ import (
 	"os"
 	"strconv"
 	"strings"
+	"sync"
 )
 
 type rec struct {
@@ -227,3 +228,12 @@ func TraceLines() []string  { return traceLn }
 // orders, on every explored schedule. No-op natively (the replay is built with
 // the Go race detector instead).
 func RaceDetect(b bool) {}
+
+// HarnessLock/HarnessUnlock protect the harness' own recording objects (fake
+// clients, counters) that the code under test calls from several goroutines.
+// Natively one global mutex; in the symbolic executor an acquire/release pair
+// for the race detection that is neither a scheduling point nor blocking.
+var harnessMu sync.Mutex
+
+func HarnessLock()   { harnessMu.Lock() }
+func HarnessUnlock() { harnessMu.Unlock() }
